@@ -71,12 +71,14 @@ Fixpoint mc_insert (x : str * P) (l : entries) : entries :=
   end.
 Definition most_common (d : entries) : entries := fold_right mc_insert [] d.
 
-(* the loop over reversed(most_common()): the words that are trained *)
+(* the loop over reversed(most_common()): the words that are trained
+   (`if skipped < 5`: nskip) *)
+Variable nskip : nat.
 Fixpoint mw_select (l : entries) (skipped : nat) (prev : P) : list str :=
   match l with
   | [] => []
   | (w, p) :: r =>
-      if Nat.ltb skipped 5 then
+      if Nat.ltb skipped nskip then
         if pltb prev p then mw_select r (S skipped) p else mw_select r skipped prev
       else w :: mw_select r skipped prev
   end.
